@@ -32,8 +32,9 @@ def cpu_state(w, prog, skip_interrupt=True, pending_prefix="None", overrides=Non
     return st
 
 
-def make_fetch_hook(encoding, nmi=False, intr=None, extra=None):
-    """encoding: list of ints / None (None = symbolic operand byte).  Reads at PC0+k return byte k."""
+def make_fetch_hook(encoding, nmi=False, intr=None, extra=None, shift=0):
+    """encoding: list of ints / None (None = symbolic operand byte).  Reads at PC0+k return byte k+shift of the
+    encoding (operand symbols are named op{k+shift}); data reads are named rd{n}, port reads io{n} by their order."""
     pc0 = tm.sym("PC", 16)
 
     def hook(w, st, path, args, dest_ty, where):
@@ -44,13 +45,18 @@ def make_fetch_hook(encoding, nmi=False, intr=None, extra=None):
             addr = args[1]
             if isinstance(addr, T):
                 base, off = tm.affine(addr)
-                if base is pc0 or (base is None and False):
-                    off &= 0xFFFF
+                if base is pc0:
+                    off = (off & 0xFFFF) + shift
                     if off < len(encoding) and encoding[off] is not None:
                         return K(encoding[off], 8)
                     if off < 8:
                         return tm.sym("op%d" % off, 8)
-                return tm.sym("mem[%s]#%d" % (tm.show(addr), len(st.trace)), 8)
+            n = sum(1 for e in st.trace if e.path == path and isinstance(e.ret, T) and e.ret.op == "sym"
+                    and e.ret.args[0].startswith("rd"))
+            return tm.sym("rd%d" % n, 8)
+        if name == "read_io":
+            n = sum(1 for e in st.trace if e.path == path)
+            return tm.sym("io%d" % n, 8)
         if name == "nmi_active":
             return tm.TRUE if nmi else tm.FALSE
         if name == "int_active" and intr is not None:
